@@ -50,11 +50,11 @@ PLAN['C19'] = dict(
     units=_c19_units, post=_c19_post, own_module='C19',
     key_filter=r'^(asan:|ubsan:|msan:|valgrind:|crash:|hang@|abort:|leak|badfree|output-depends-on-heap-junk|workspace-layout-broken|workspace-accounting-broken)',
     rule='70 % of the cases: lifecycle programs over the computational routines (create -> get_perm_c/sp_preorder -> ?gstrf -> random sequence of ?gstrs, ?gscon, ?gsrfs, ?PivotGrowth, ?QuerySpace, sp_?trsv, matrix copy, ?CompRow_to_CompCol against a stable counting-sort reference, ?GenXtrue/?FillRHS/?Copy_Dense_Matrix with padded arrays -> destroy) with forced exit paths '
-         '(singular input, too-small and sufficient caller workspace, injected ?expand failure, size query), each executed twice under different junk fill of fresh library allocations (bitwise equal outputs), ledger empty at the end, no bad free; 30 % of the cases: expert-driver lifecycles (?gssvx / ?gsisx with equilibration, MC64 row permutation, refinement, estimates) ended by a too-short caller workspace of random length, an injected growth failure, a size query or run to completion and re-solved with Fact = FACTORED, same two-execution differential and ledger; '
+         '(singular input, too-small and sufficient caller workspace, injected ?expand failure, failure of the work-array allocation in ?LUWorkInit, size query), each executed twice under different junk fill of fresh library allocations (bitwise equal outputs), ledger empty at the end, no bad free; 30 % of the cases: expert-driver lifecycles (?gssvx / ?gsisx with equilibration, MC64 row permutation, refinement, estimates) ended by a too-short caller workspace of random length, an injected growth failure, a size query or run to completion and re-solved with Fact = FACTORED, same two-execution differential and ledger; '
          'the same programs under MemorySanitizer and valgrind memcheck, plus the C01/C05/C06/C08/C15 workloads under MemorySanitizer and the C06 refactor/re-solve histories and C07 storage variants (capacity walk) under ASan (only memory-class keys count here); every other check of this suite also runs under ASan+UBSan with the ledger; '
          'non-trivial = a successful factorization followed by at least one further routine, or a forced exit path',
     counter_names=['post-factorization routine calls'],
     min_nontrivial={'quick': 2500, 'thorough': 40000},
-    require_tags={'quick': ['exit=ok', 'exit=singular', 'exit=nomem', 'exit=query', 'forced=0', 'forced=1', 'forced=3', 'op=0', 'op=2', 'op=3', 'op=4', 'op=5', 'op=6', 'op=7', 'op=8', 'op=9', 'drv=gssvx', 'drv=gsisx', 'drv-exit=ok', 'drv-exit=nomem', 'drv-exit=query', 'drv-exit=singular', 'drv-forced=3', 'capacity-start', 'drv-capacity-start']},
+    require_tags={'quick': ['exit=ok', 'exit=singular', 'exit=nomem', 'exit=query', 'forced=0', 'forced=1', 'forced=3', 'work-allocation-failed', 'op=0', 'op=2', 'op=3', 'op=4', 'op=5', 'op=6', 'op=7', 'op=8', 'op=9', 'drv=gssvx', 'drv=gsisx', 'drv-exit=ok', 'drv-exit=nomem', 'drv-exit=query', 'drv-exit=singular', 'drv-forced=3', 'capacity-start', 'drv-capacity-start']},
     assumptions=['junk-fill differential and MemorySanitizer/memcheck are complementary detectors of uninitialised-value dependence', 'LeakSanitizer is off: leaks are decided by the exact allocation ledger'],
 )
